@@ -349,6 +349,7 @@ type stats struct {
 	Profile     string         `json:"profile"`
 	Seed        int64          `json:"seed"`
 	Cases       int            `json:"cases"`
+	Corpus      int            `json:"corpus_cases_run_first"`
 	Steps       int            `json:"steps"`
 	Distinct    int            `json:"distinct_nontrivial"`
 	Cut         int            `json:"cases_cut_by_foreign_divergence"`
@@ -474,6 +475,7 @@ func main() {
 			}
 		}
 	}
+	st.Corpus = len(cases)
 	master := newPrng(uint64(*seed))
 	for i := 0; i < *ncases; i++ {
 		r := newPrng(master.next())
@@ -681,7 +683,7 @@ func main() {
 		_ = os.MkdirAll(*replayDir, 0o755)
 		path := filepath.Join(*replayDir, fmt.Sprintf("%s-%d-correspondence.json", *prop, *seed))
 		rep := map[string]any{"property": *prop, "kind": "no-failing-input-found",
-			"broken": "correspondence between the Lean model (lean/TM) and the implementation: model and code disagree on steps that belong to other properties in more than half of the cases, before this property's operations are reached",
+			"broken":           "correspondence between the Lean model (lean/TM) and the implementation: model and code disagree on steps that belong to other properties in more than half of the cases, before this property's operations are reached",
 			"foreign_findings": st.Foreign, "cases": st.Cases, "seed": *seed}
 		b, _ := json.MarshalIndent(rep, "", " ")
 		_ = os.WriteFile(path, b, 0o644)
